@@ -1,5 +1,14 @@
 import NibabelModel.Model.C06
-/-! Props/C06 — the property theorems for C06 (statements + proofs; helper lemmas live in Lemmas/). -/
+import NibabelModel.Lemmas.PySlice
+/-! Props/C06 — property theorems for C06 (reading a slice from file bytes equals NumPy indexing).
+    Stage A (per axis), stage B (segments), stage C (whole) — see DESIGN.md §5 C06. -/
 namespace Nb.C06
+open Nb
+
+/-- The pinned (pre-fix) `fill_slicer` did not clamp: `[-7:]` on length 5 selected `[3,4]`,
+    not all five elements. -/
+theorem fillSlicerOrig_counterexample :
+    (fillSlicerOrig ⟨some (-7), none, none⟩ 5).toPy.sel 5 ≠ (⟨some (-7), none, none⟩ : PySlice).sel 5 := by
+  decide
 
 end Nb.C06
